@@ -52,6 +52,9 @@ type c16Case struct {
 	// the rate limiter pass while its bucket is full)
 	Qps      int `json:"qps,omitempty"`
 	SlowScan int `json:"slow_scan_page,omitempty"`
+	// RefuseSelect n>0: the target answers SELECT n with "-ERR DB index is out of range" (it is
+	// configured with fewer databases than the source)
+	RefuseSelect int `json:"target_refuses_select,omitempty"`
 }
 
 func c16Entry(k c16Key) *mredis.Entry {
@@ -237,7 +240,12 @@ func c16Run(t *testing.T, c c16Case) (kind, what string) {
 			// target
 			dstOpt := mredis.Options{Registry: reg}
 			var dst *mredis.Server
+			selectRefused := false
 			dstOpt.ReplyHook = func(cmd mredis.Cmd) []byte {
+				if cmd.Name() == "select" && c.RefuseSelect > 0 && len(cmd.Argv) == 2 && string(cmd.Argv[1]) == fmt.Sprint(c.RefuseSelect) {
+					selectRefused = true
+					return []byte("-ERR DB index is out of range\r\n")
+				}
 				if cmd.Name() == "restore" {
 					restoreAt[fmt.Sprintf("%d/%s", cmd.DB, cmd.Argv[1])] = nowMs()
 				}
@@ -306,6 +314,12 @@ func c16Run(t *testing.T, c c16Case) (kind, what string) {
 					if e := dst.Lookup(preDB, c.Pre); e == nil || !strings.Contains(e.Canon(), "OLD") || strings.Contains(e.Canon(), "v-"+c.Pre) || strings.Contains(e.Canon(), "l1-"+c.Pre) {
 						bad("busy-key-overwritten", fmt.Sprintf("key_exists=none: the existing target key %s was changed and no error was raised", c.Pre))
 					}
+				}
+			case selectRefused:
+				// the target has no such database: the keys of that database cannot be copied, the run
+				// must say so instead of finishing as if everything were in place
+				if rt && !ab {
+					bad("select-refusal-ignored", fmt.Sprintf("the target answered SELECT %d with an error, rump finishes without reporting anything", c.RefuseSelect))
 				}
 			case ab:
 				bad("abort", "rump aborts although nothing is wrong with the source or the target")
@@ -567,6 +581,32 @@ func TestVerif_C16(t *testing.T) {
 					for _, sc := range []uint32{1, 3} {
 						run(c16Case{Keys: keys, Pages: append([][]int{comp}, rest...), ScanCount: sc, Threshold: 1 << 30, KeyExists: "rewrite", TargetDB: -1, KeyFile: -1, Qps: qps, SlowScan: slow})
 					}
+				}
+			}
+		}
+	}
+	// a target with fewer databases than the source: SELECT of a later database is refused
+	for _, keys := range keyspaces {
+		perDB := map[int]int{}
+		var dbIds []int
+		for _, k := range keys {
+			if perDB[k.DB] == 0 {
+				dbIds = append(dbIds, k.DB)
+			}
+			perDB[k.DB]++
+		}
+		sort.Ints(dbIds)
+		var pages [][]int
+		for _, d := range dbIds {
+			pages = append(pages, []int{perDB[d]})
+		}
+		for _, d := range dbIds {
+			if d == 0 {
+				continue
+			}
+			for _, sc := range []uint32{1, 3} {
+				for _, thr := range []uint64{1 << 30, 40} {
+					run(c16Case{Keys: keys, Pages: pages, ScanCount: sc, Threshold: thr, KeyExists: "rewrite", TargetDB: -1, KeyFile: -1, RefuseSelect: d})
 				}
 			}
 		}
